@@ -229,6 +229,12 @@ class Interp:
         self.prec = 0
         self.trace = trace       # optional list collecting ('ev', token) of the main output (see xsltgen.ev_script)
         self.depth = 0
+        self.vt = None           # optional: children list of the dynamic execution tree being built
+        self.vroot = None
+        self.marker_next = False
+        self.useidx = 0
+        self.insts = []          # binding instances: parts = [str | ("use", idx)] or None
+        self.eids = {}
         self.initial_cx = tuple([0, 1, 1])
         self.load(sheet)
 
@@ -270,6 +276,55 @@ class Interp:
             else:
                 raise XsltError("top " + str(t[0]))
 
+    # ---- dynamic execution tree (consumed by the extracted VariablesStack model, never by the oracle) ----
+    def enable_vtrace(self):
+        self.vroot = []
+        self.vt = self.vroot
+
+    def eid(self, key):
+        return self.eids.setdefault(key if isinstance(key, str) else id(key), len(self.eids) + 1)
+
+    def vt_push(self, head):
+        if self.vt is None:
+            return None
+        node = list(head) + [[]]
+        self.vt.append(node)
+        saved = self.vt
+        self.vt = node[-1]
+        return saved
+
+    def vt_pop(self, saved):
+        if saved is not None:
+            self.vt = saved
+
+    def new_inst(self, vdef, first_use):
+        """binding instance; its printable value is reconstructed from the uses its select made"""
+        parts = None
+        if vdef[0] == "select":
+            e = vdef[1]
+            if e[0] == "lit":
+                parts = [e[1]]
+            elif e[0] == "fn" and e[1] == "concat":
+                parts, k = [], first_use
+                for a in e[2]:
+                    if a[0] == "lit":
+                        parts.append(a[1])
+                    elif a[0] == "var":
+                        parts.append(("use", k))
+                        k += 1
+                    else:
+                        parts = None
+                        break
+        self.insts.append(parts)
+        return len(self.insts)
+
+    def block(self, key, body, cx, env, b, tm, mode):
+        saved = self.vt_push(["B", self.eid(key)])
+        try:
+            self.run(body, cx, env, b, tm, mode)
+        finally:
+            self.vt_pop(saved)
+
     # ---- XPath ----
     def xp(self, e, cx, env):
         node, pos, size = cx
@@ -302,7 +357,7 @@ class Interp:
             return ""
         b = Builder(self.flags)
         self.depth += 1
-        self.run(vdef[1], cx, dict(env), b, None, None)
+        self.block(vdef, vdef[1], cx, dict(env), b, None, None)
         self.depth -= 1
         return RTF(b.root)
 
@@ -399,7 +454,11 @@ class Interp:
             tm = self.find_template(n, mode)
             cx = self.initial_cx if initial else (n, i + 1, size)
             if tm is None:
-                self.builtin(cx, mode, b)
+                saved = self.vt_push(["T", self.eid("builtin-" + self.nodes[n].kind), []])
+                try:
+                    self.builtin(cx, mode, b)
+                finally:
+                    self.vt_pop(saved)
             else:
                 self.instantiate(tm, cx, params, b, mode)
 
@@ -407,19 +466,30 @@ class Interp:
         n = cx[0]
         kind = self.nodes[n].kind
         if kind in ("doc", "elem"):
-            self.apply(self.ref.children(n), mode, {}, b)
+            saved = self.vt_push(["I", []])
+            try:
+                self.apply(self.ref.children(n), mode, {}, b)
+            finally:
+                self.vt_pop(saved)
         elif kind in ("text", "attr"):
             self.emit_text(b, self.ref.string_value(n))
         # comments, processing instructions: nothing
 
     def instantiate(self, tm, cx, params, b, mode):
         env = {}
-        for name, vdef in tm.params:
-            if name in params:
-                env[name] = params[name]
-            else:
-                env[name] = self.vdef_value(vdef, cx, env)
-        self.run(tm.body, cx, env, b, tm, mode)
+        plist = []
+        saved = self.vt_push(["T", self.eid(tm), plist])
+        try:
+            for name, vdef in tm.params:
+                first = self.useidx
+                if name in params:
+                    env[name] = params[name]
+                else:
+                    env[name] = self.vdef_value(vdef, cx, env)
+                plist.append((name, self.new_inst(vdef, first)))
+            self.run(tm.body, cx, env, b, tm, mode)
+        finally:
+            self.vt_pop(saved)
 
     def avt(self, parts, cx, env):
         out = []
@@ -441,7 +511,7 @@ class Interp:
     def body_string(self, body, cx, env, tm, mode, what):
         b = Builder(self.flags)
         self.depth += 1
-        self.run(body, cx, dict(env), b, tm, mode)
+        self.block(body, body, cx, dict(env), b, tm, mode)
         self.depth -= 1
         out = []
         for n in b.root:
@@ -453,7 +523,13 @@ class Interp:
         return "".join(out)
 
     def with_params(self, wps, cx, env):
-        return {name: self.vdef_value(vdef, cx, env) for name, vdef in wps}
+        out = {}
+        self.last_wp = []
+        for name, vdef in wps:
+            first = self.useidx
+            out[name] = self.vdef_value(vdef, cx, env)
+            self.last_wp.append((name, self.new_inst(vdef, first)))
+        return out
 
     # event tokens of the MAIN output (depth 0), in the order instructions are instantiated; consumed by
     # the extracted pending-machine model (correspondence), never by the oracle
@@ -463,23 +539,23 @@ class Interp:
 
     def emit_text(self, b, s, via_copy_of=False):
         if s != "" or via_copy_of:
-            self.ev("T:" + s.encode("utf-8").hex())
+            self.ev("T," + s.encode("utf-8").hex())
         b.text(s, via_copy_of)
 
     def emit_start(self, b, name, shown):
         if self.depth > 0 and name[0]:
             self.flags["ns_in_rtf"] = self.flags.get("ns_in_rtf", 0) + 1
-        self.ev("S:" + shown)
+        self.ev("S," + shown)
         b.start(name)
 
     def emit_end(self, b, shown):
-        self.ev("E:" + shown)
+        self.ev("E," + shown)
         b.end()
 
     def emit_attr(self, b, name, shown, value, copy=False):
         if self.depth > 0 and name[0] and name[0] != xpgen.XML_NS:
             self.flags["ns_in_rtf"] = self.flags.get("ns_in_rtf", 0) + 1
-        self.ev(("CA:" if copy else "A:") + shown + ":" + value.encode("utf-8").hex())
+        self.ev(("CA," if copy else "A,") + shown + "," + value.encode("utf-8").hex())
         b.attr(name, value)
 
     def shown(self, name):
@@ -495,12 +571,12 @@ class Interp:
                 for aq, parts in ins[2]:
                     an = self.qname(aq, True)
                     self.emit_attr(b, an, self.shown(an), self.avt(parts, cx, env))
-                self.run(ins[3], cx, dict(env), b, tm, mode)
+                self.block(ins, ins[3], cx, dict(env), b, tm, mode)
                 self.emit_end(b, self.shown(nm))
             elif k == "element":
                 nm = self.qname(self.avt(ins[1], cx, env))
                 self.emit_start(b, nm, self.shown(nm))
-                self.run(ins[2], cx, dict(env), b, tm, mode)
+                self.block(ins, ins[2], cx, dict(env), b, tm, mode)
                 self.emit_end(b, self.shown(nm))
             elif k == "attribute":
                 an = self.qname(self.avt(ins[1], cx, env), True)
@@ -509,15 +585,17 @@ class Interp:
             elif k in ("text", "lit"):
                 self.emit_text(b, ins[1])
             elif k == "value-of":
-                self.emit_text(b, self.ref.to_str(self.xp(ins[1], cx, env)))
+                dot = ins[1] == ("path", None, [], [("self", "node", [])])
+                self.marker_next = ins[1][0] == "var"
+                self.emit_text(b, self.ref.to_str(self.xp(ins[1], cx, env)), via_copy_of=dot)
             elif k == "comment":
                 s = self.body_string(ins[1], cx, env, tm, mode, "comment")
-                self.ev("C:" + s.encode("utf-8").hex())
+                self.ev("C," + s.encode("utf-8").hex())
                 b.comment(s)
             elif k == "pi":
                 t = self.avt(ins[1], cx, env)
                 s = self.body_string(ins[2], cx, env, tm, mode, "pi")
-                self.ev("P:" + t + ":" + s.encode("utf-8").hex())
+                self.ev("P," + t + "," + s.encode("utf-8").hex())
                 b.pi(t, s)
             elif k == "copy":
                 self.copy_shallow(cx, env, b, ins[1], tm, mode)
@@ -534,17 +612,26 @@ class Interp:
             elif k == "apply":
                 sel = ins[1] if ins[1] is not None else ("path", None, [], [("child", "node", [])])
                 wp = self.with_params(ins[4], cx, env)
+                wpi = self.last_wp
                 v = self.xp(sel, cx, env)
                 if not isinstance(v, list):
                     raise XsltError("apply-templates select is not a node-set")
                 nodes = self.sorted_nodes(v, ins[3], env)
-                self.apply(nodes, ins[2], wp, b)
+                saved = self.vt_push(["I", wpi])
+                try:
+                    self.apply(nodes, ins[2], wp, b)
+                finally:
+                    self.vt_pop(saved)
             elif k == "call":
                 t2 = self.named.get(ins[1])
                 if t2 is None:
                     raise XsltError("no such template")
                 wp = self.with_params(ins[2], cx, env)
-                self.instantiate(t2, cx, wp, b, mode)
+                saved = self.vt_push(["I", self.last_wp])
+                try:
+                    self.instantiate(t2, cx, wp, b, mode)
+                finally:
+                    self.vt_pop(saved)
             elif k == "for-each":
                 v = self.xp(ins[1], cx, env)
                 if not isinstance(v, list):
@@ -552,20 +639,23 @@ class Interp:
                 nodes = self.sorted_nodes(v, ins[2], env)
                 size = len(nodes)
                 for i, n in enumerate(nodes):
-                    self.run(ins[3], (n, i + 1, size), dict(env), b, None, mode)
+                    self.block(ins, ins[3], (n, i + 1, size), dict(env), b, None, mode)
             elif k == "if":
                 if self.ref.to_bool(self.xp(ins[1], cx, env)):
-                    self.run(ins[2], cx, dict(env), b, tm, mode)
+                    self.block(ins, ins[2], cx, dict(env), b, tm, mode)
             elif k == "choose":
                 for test, body2 in ins[1]:
                     if self.ref.to_bool(self.xp(test, cx, env)):
-                        self.run(body2, cx, dict(env), b, tm, mode)
+                        self.block(body2, body2, cx, dict(env), b, tm, mode)
                         break
                 else:
                     if ins[2] is not None:
-                        self.run(ins[2], cx, dict(env), b, tm, mode)
+                        self.block(ins[2], ins[2], cx, dict(env), b, tm, mode)
             elif k == "variable":
+                first = self.useidx
                 env[ins[1]] = self.vdef_value(ins[2], cx, env)
+                if self.vt is not None:
+                    self.vt.append(["V", ins[1], self.new_inst(ins[2], first)])
             elif k == "number":
                 x = self.ref.to_num(self.xp(ins[1], cx, env))
                 self.emit_text(b, format_number_value(x, ins[2]))
@@ -582,20 +672,20 @@ class Interp:
         n = cx[0]
         nd = self.nodes[n]
         if nd.kind == "doc":
-            self.run(body, cx, dict(env), b, tm, mode)
+            self.block(body, body, cx, dict(env), b, tm, mode)
         elif nd.kind == "elem":
             self.emit_start(b, self.node_name(nd), self.shown_src(nd))
-            self.run(body, cx, dict(env), b, tm, mode)
+            self.block(body, body, cx, dict(env), b, tm, mode)
             self.emit_end(b, self.shown_src(nd))
         elif nd.kind == "text":
             self.emit_text(b, nd.value)
         elif nd.kind == "attr":
             self.emit_attr(b, self.node_name(nd), self.shown_src(nd), nd.value, copy=True)
         elif nd.kind == "comment":
-            self.ev("C:" + nd.value.encode("utf-8").hex())
+            self.ev("C," + nd.value.encode("utf-8").hex())
             b.comment(nd.value)
         elif nd.kind == "pi":
-            self.ev("P:" + nd.qname + ":" + nd.value.encode("utf-8").hex())
+            self.ev("P," + nd.qname + "," + nd.value.encode("utf-8").hex())
             b.pi(nd.qname, nd.value)
 
     def copy_deep(self, n, b):
@@ -616,10 +706,10 @@ class Interp:
         elif nd.kind == "attr":
             self.emit_attr(b, self.node_name(nd), self.shown_src(nd), nd.value, copy=True)
         elif nd.kind == "comment":
-            self.ev("C:" + nd.value.encode("utf-8").hex())
+            self.ev("C," + nd.value.encode("utf-8").hex())
             b.comment(nd.value)
         elif nd.kind == "pi":
-            self.ev("P:" + nd.qname + ":" + nd.value.encode("utf-8").hex())
+            self.ev("P," + nd.qname + "," + nd.value.encode("utf-8").hex())
             b.pi(nd.qname, nd.value)
 
     def copy_rtf_node(self, n, b):
@@ -633,10 +723,10 @@ class Interp:
         elif n["k"] == "t":
             self.emit_text(b, n["v"])
         elif n["k"] == "c":
-            self.ev("C:" + n["v"].encode("utf-8").hex())
+            self.ev("C," + n["v"].encode("utf-8").hex())
             b.comment(n["v"])
         else:
-            self.ev("P:" + n["t"] + ":" + n["v"].encode("utf-8").hex())
+            self.ev("P," + n["t"] + "," + n["v"].encode("utf-8").hex())
             b.pi(n["t"], n["v"])
 
     def transform(self):
@@ -656,6 +746,11 @@ class _Env(dict):
         return dict.__contains__(self, k) or k in self.interp.globals
 
     def __getitem__(self, k):
+        it = self.interp
+        if it.vt is not None:
+            it.vt.append(["U", k, it.useidx, it.marker_next])
+            it.marker_next = False
+            it.useidx += 1
         if dict.__contains__(self, k):
             return dict.__getitem__(self, k)
         saved = (self.interp.ref.vars, self.interp.ref.current)
@@ -706,9 +801,13 @@ def format_number_value(x, fmt):
     raise XsltError("format")
 
 
-def run(sheet, doc_top, trace=None, fuel=20000):
+def run(sheet, doc_top, trace=None, fuel=20000, vtrace=False):
     it = Interp(sheet, doc_top, fuel=fuel, trace=trace)
+    if vtrace:
+        it.enable_vtrace()
     tree = it.transform()
+    if vtrace:
+        return tree, it.flags, it
     return tree, it.flags
 
 
